@@ -136,6 +136,9 @@ var reqPkt = map[string]string{"pub1": "PUBLISH", "pub2": "PUBLISH", "sub": "SUB
 
 func runBlockBase(sc *BlockCase, res *BlockResult) {
 	plan := netsim.Plan{}
+	if sc.L == "connectWrite" {
+		plan.Writes = []netsim.FaultRule{{K: 1, O: "cutBefore"}}
+	}
 	silentConnack := sc.L == "atRLock" || sc.K == "connect"
 	if silentConnack {
 		plan.ConnAcks = []netsim.ConnAckPlan{{Silent: true}}
@@ -171,6 +174,26 @@ func runBlockBase(sc *BlockCase, res *BlockResult) {
 		}()
 		ret = connRet
 		res.Steered = waitFor(func() bool { return countWrites(rec, "CONNECT") == 1 }, 2*time.Second)
+		if sc.L == "connectWrite" {
+			// the cause has already happened inside the write
+			select {
+			case r := <-connRet:
+				res.Returned = true
+				res.Res = netsim.ErrClass(r.err)
+			case <-time.After(2 * time.Second):
+				res.Res = "timeout"
+			}
+			cli.Close()
+			if dch := cli.Done(); dch != nil {
+				select {
+				case <-dch:
+					res.DoneClosed = true
+				case <-time.After(2 * time.Second):
+				}
+			}
+			rootCancel()
+			return
+		}
 	} else if sc.L == "atRLock" {
 		go func() {
 			_, err := cli.Connect(root, "blocking")
